@@ -176,6 +176,18 @@ where
     }
 }
 
+/// Close a chain with the real `RoutingEnd` (as `RouterBuilder::build` does), towards the given
+/// downstream blocks in route order.
+#[cfg(feature = "verif")]
+pub(crate) fn verif_routing_end<Out: ExchangeData, OperatorChain: Operator<Out = Out>>(
+    prev: OperatorChain,
+    routes: Vec<(BlockId, fn(&Out) -> bool)>,
+    batch_mode: BatchMode,
+) -> impl Operator<Out = ()> {
+    let routes = routes.into_iter().map(|(b, f)| (b, FilterFn(f))).collect();
+    RoutingEnd::new(prev, routes, NextStrategy::only_one(), batch_mode)
+}
+
 #[derive(Clone)]
 struct Endpoint<Out> {
     block_id: BlockId,
